@@ -103,6 +103,16 @@ def add_cycle(rng, net, force=None):
             net["rxns"].append({"id": "C%d" % len(net["rxns"]), "st": {m: str(c) for m, c in st.items()},
                                 "lb": str(lb), "ub": str(ub), "obj": "0", "gpr": ""})
         return
+    if rng.random() < 0.2:
+        # a cycle through lumped one-sided reactions (two metabolites on the same side): internal reactions all the same
+        a, b = ms[0], ms[1]
+        U = lambda: rng.choice([F(1), F(5), F(10), F(1000), F(1000)])  # noqa
+        for st in ({a: F(1), b: F(1)}, {a: F(-1), b: F(-1)}):
+            pat = rng.choice(["fwd", "rev", "rev"])
+            lb, ub = (F(0), U()) if pat == "fwd" else (-U(), U())
+            net["rxns"].append({"id": "C%d" % len(net["rxns"]), "st": {m: str(c) for m, c in st.items()},
+                                "lb": str(lb), "ub": str(ub), "obj": "0", "gpr": ""})
+        return
     parallel = L == 2 and rng.random() < 0.4     # two parallel copies a -> b, one of which must run backwards
     for k in range(L):
         a, b = ms[k], ms[(k + 1) % L]
